@@ -28,7 +28,7 @@ from props import exprlib as el, c01
 ID = 'C06'
 PROFILES = ['dev']
 REPLAY_PROFILES = ['dev', 'release']
-TIME_LIMIT = {'quick': 420, 'thorough': 3000}
+TIME_LIMIT = {'quick': 900, 'thorough': 3000}
 BUDGET = 120
 FIRST_BUDGET = 60
 
